@@ -476,16 +476,22 @@ def r3(ctx, F):
             else:
                 ctx.ok('C07-R3', '%s:%s' % (fn.path, lab), 'arm GameMode::%s mentions only its own mode: %s' % (
                     lab, ', '.join(sorted({t for _, t, _, _ in ments}))[:300]), fn.where())
-    ctx.floor('C07-R3', n_arms, 36, 'mode-specific arms of GameMode switches')
+    # 38 today; merging duplicated dispatch blocks into shared helpers legitimately lowers the count
+    ctx.floor('C07-R3', n_arms, 20, 'mode-specific arms of GameMode switches')
     want = ['any::difficulty::Difficulty::calculate', 'any::difficulty::Difficulty::strains',
             'any::difficulty::gradual::GradualDifficulty::new_with_mode',
             'any::performance::gradual::GradualPerformance::new_with_mode',
             'model::beatmap::Beatmap::convert_ref', 'model::beatmap::Beatmap::convert_mut',
             "osu::performance::OsuPerformance::<'map>::try_mode", "osu::performance::OsuPerformance::<'map>::mode_or_ignore"]
+    import callgraph
+    cg = callgraph.of(F) if hasattr(callgraph, 'of') else callgraph.CallGraph(F)
     for w in want:
         short = w.split('::')[-2].split('<')[0] + '::' + w.split('::')[-1]
-        ctx.require(w in n_fns, 'C07-R3', 'anchor:' + short, 'dispatch function %s analysed' % w,
-                    bad='dispatch function %s no longer switches on GameMode (anchor-missing)' % w)
+        # the dispatch may sit in a local helper the function delegates to (two levels)
+        near = {w} | set(cg.succ.get(w, ()))
+        near |= {y for x in list(near) for y in cg.succ.get(x, ())}
+        ctx.require(bool(near & n_fns), 'C07-R3', 'anchor:' + short, 'dispatch function %s analysed (switch on GameMode in %s)' % (w, sorted(near & n_fns)[:2]),
+                    bad='neither dispatch function %s nor a local function it calls switches on GameMode any more (anchor-missing)' % w)
     # generic *_for_mode functions call the trait method of M itself
     for name, tm in [('calculate_for_mode', 'difficulty'), ('strains_for_mode', 'strains'),
                      ('gradual_difficulty_for_mode', 'gradual_difficulty'),
